@@ -202,6 +202,8 @@ func H_C04_typed(v *V) {
 		opts |= HelpFlag
 		fault = [][]string{{"run", "--help"}, {"run", "-h"}, {"--help"}, {"run", "--colour-mode", "--help"}}[v.Choice(4)]
 		want = ErrHelp
+	case 16: // a value that starts like a quoted literal but is not one
+		fault, want = []string{[]string{"--str=\"", "--str=\"a", "-s\"", "--eac=\"\\"}[v.Choice(4)]}, ErrMarshal
 	case 12: // the fault arrives through the environment: not a number
 		// (an environment value cannot hold a NUL byte)
 		v.Assume(refIndexByte(V, 0) < 0)
